@@ -299,6 +299,191 @@ func c10Geom(r *rand.Rand, mode int, depth int) orb.Geometry {
 	}
 }
 
+// c10Flat: a ring of total area 0 — lattice points on one line (p + k·d), or a there-and-back walk — open or closed.
+func c10Flat(r *rand.Rand, mode int) orb.Ring {
+	p := c10Pt(r, 0)
+	d := orb.Point{float64(r.Intn(7) - 3), float64(r.Intn(7) - 3)}
+	if mode == 1 {
+		p = orb.Point{float64(r.Intn(2001) - 1000), float64(r.Intn(2001) - 1000)}
+		d = orb.Point{float64(r.Intn(2001) - 1000), float64(r.Intn(2001) - 1000)}
+	}
+	n := 1 + r.Intn(5)
+	rg := make(orb.Ring, 0, n+1)
+	for i := 0; i < n; i++ {
+		k := float64(r.Intn(9) - 4)
+		rg = append(rg, orb.Point{p[0] + k*d[0], p[1] + k*d[1]})
+	}
+	if r.Intn(2) == 0 {
+		rg = append(rg, rg[0])
+	}
+	return rg
+}
+
+// c10Degenerate: polygons of total area 0 (the fall-back to the outer ring's centroid AS A LINE): a flat outer ring,
+// holes that use the outer ring up (the outer ring itself, reversed or rotated, or a split of a box into two halves),
+// flat holes next to them; and their multi-polygon / collection wrappings (weight 0: origin).
+func c10Degenerate(r *rand.Rand, mode int) orb.Geometry {
+	var pg orb.Polygon
+	switch r.Intn(4) {
+	case 0:
+		pg = orb.Polygon{c10Flat(r, mode)}
+	case 1:
+		pg = orb.Polygon{c10Flat(r, mode), c10Flat(r, mode)}
+	case 2: // hole = the outer ring again (rotated / reversed)
+		o := c10Convex(r, mode)
+		h := append(orb.Ring{}, o...)
+		if len(h) > 1 && h[0] == h[len(h)-1] {
+			h = h[:len(h)-1]
+		}
+		k := r.Intn(len(h))
+		h = append(append(orb.Ring{}, h[k:]...), h[:k]...)
+		if r.Intn(2) == 0 {
+			h.Reverse()
+		}
+		pg = orb.Polygon{o, h}
+		if r.Intn(3) == 0 {
+			pg = append(pg, c10Flat(r, mode))
+		}
+	default: // a box and its two halves as holes
+		x0, y0 := float64(r.Intn(41)-20), float64(r.Intn(41)-20)
+		w, h := float64(2*(1+r.Intn(20))), float64(1+r.Intn(40))
+		o := orb.Ring{{x0, y0}, {x0 + w, y0}, {x0 + w, y0 + h}, {x0, y0 + h}, {x0, y0}}
+		h1 := orb.Ring{{x0, y0}, {x0 + w/2, y0}, {x0 + w/2, y0 + h}, {x0, y0 + h}, {x0, y0}}
+		h2 := orb.Ring{{x0 + w/2, y0}, {x0 + w, y0}, {x0 + w, y0 + h}, {x0 + w/2, y0 + h}}
+		if r.Intn(2) == 0 {
+			h1.Reverse()
+		}
+		pg = orb.Polygon{o, h1, h2}
+	}
+	switch r.Intn(6) {
+	case 0:
+		return orb.MultiPolygon{pg}
+	case 1:
+		return orb.MultiPolygon{pg, orb.Polygon{c10Flat(r, mode)}}
+	case 2:
+		return orb.Collection{pg, orb.LineString(c10Pts(r, mode, 4))}
+	case 3:
+		return c10Flat(r, mode)
+	}
+	return pg
+}
+
+// c10Tied: a multi-line / multi-polygon / collection / multi-point in which members occur more than once, so that the
+// nearest member is tied exactly (same vertices, same float operations): the index must name the FIRST of them.
+func c10Tied(r *rand.Rand, mode int) orb.Geometry {
+	n := 2 + r.Intn(3)
+	pos := func(k int) []int { // member i of the result is a copy of base[pos[i]]
+		out := make([]int, 0, 2*k)
+		for i := 0; i < k; i++ {
+			out = append(out, i)
+		}
+		for j := 0; j < 1+r.Intn(k); j++ {
+			at := r.Intn(len(out) + 1)
+			out = append(out[:at], append([]int{r.Intn(k)}, out[at:]...)...)
+		}
+		return out
+	}
+	switch r.Intn(5) {
+	case 4: // a polygon whose rings recur with another start vertex: the tie is between RINGS, the segment index differs
+		base := make([]orb.Ring, n)
+		for i := range base {
+			base[i] = c10Ring(r, mode, 5)
+		}
+		var m orb.Polygon
+		for _, i := range pos(n) {
+			b := base[i]
+			if len(b) > 2 && b[0] == b[len(b)-1] && r.Intn(2) == 0 { // rotate a closed ring
+				o := b[:len(b)-1]
+				k := r.Intn(len(o))
+				b = append(append(append(orb.Ring{}, o[k:]...), o[:k]...), o[k])
+			}
+			m = append(m, b)
+		}
+		return m
+	case 0:
+		base := make([]orb.LineString, n)
+		for i := range base {
+			base[i] = orb.LineString(c10Pts(r, mode, 4))
+		}
+		var m orb.MultiLineString
+		for _, i := range pos(n) {
+			m = append(m, base[i])
+		}
+		return m
+	case 1:
+		base := make([]orb.Polygon, n)
+		for i := range base {
+			base[i] = orb.Polygon{c10Ring(r, mode, 5)}
+			if r.Intn(3) == 0 {
+				base[i] = append(base[i], c10Ring(r, mode, 4))
+			}
+		}
+		var m orb.MultiPolygon
+		for _, i := range pos(n) {
+			m = append(m, base[i])
+		}
+		return m
+	case 2:
+		base := make([]orb.Geometry, n)
+		for i := range base {
+			base[i] = c10Geom(r, mode, 1)
+		}
+		var m orb.Collection
+		for _, i := range pos(n) {
+			m = append(m, base[i])
+		}
+		return m
+	default:
+		base := c10Pts(r, mode, 4)
+		if len(base) == 0 {
+			base = []orb.Point{c10Pt(r, mode)}
+		}
+		var m orb.MultiPoint
+		for _, i := range pos(len(base)) {
+			m = append(m, base[i])
+		}
+		return m
+	}
+}
+
+// c10FloatRing: a ring of general-position floats of ONE magnitude (so that most variants are well conditioned):
+// half of them star-shaped around a centre (vertices by increasing angle: simple, of substantial area), half arbitrary.
+func c10FloatRing(r *rand.Rand) (orb.Ring, orb.Point) {
+	s := []float64{1e-3, 1, 180, 1e6}[r.Intn(4)]
+	n := 3 + r.Intn(6)
+	rg := make(orb.Ring, n)
+	if r.Intn(2) == 0 {
+		cx, cy := (r.Float64()*2-1)*s, (r.Float64()*2-1)*s
+		// directions of increasing angle without trigonometry: walk round the unit square's boundary
+		for i := range rg {
+			u := (float64(i) + r.Float64()*0.9) / float64(n) * 4
+			var dx, dy float64
+			switch {
+			case u < 1:
+				dx, dy = 1, 2*u-1
+			case u < 2:
+				dx, dy = 3-2*u, 1
+			case u < 3:
+				dx, dy = -1, 5-2*u
+			default:
+				dx, dy = 2*u-7, -1
+			}
+			rad := (0.25 + 0.75*r.Float64()) * s
+			rg[i] = orb.Point{cx + dx*rad, cy + dy*rad}
+		}
+		if r.Intn(2) == 0 {
+			rg.Reverse()
+		}
+	} else {
+		for i := range rg {
+			rg[i] = orb.Point{(r.Float64()*2 - 1) * s, (r.Float64()*2 - 1) * s}
+		}
+	}
+	k := []float64{1, 1, 16, 1.0 / 16}[r.Intn(4)]
+	t := orb.Point{(r.Float64()*2 - 1) * s * k, (r.Float64()*2 - 1) * s * k}
+	return rg, t
+}
+
 // c10Query: a query point aligned with the geometry (a vertex, a lattice point of a segment, near the bound).
 func c10Query(r *rand.Rand, mode int, g orb.Geometry) orb.Point {
 	var vs []orb.Point
@@ -398,6 +583,11 @@ func genC10(c *Ctx) {
 			orb.Collection{orb.Point{1, 1}, orb.Point{3, 3}},
 			orb.MultiLineString{l1, {{10, 10}, {10, 10}}}, // zero-length member: fixed in orb 495fe7f, must pass
 			orb.Collection{orb.Polygon{{{0, 0}, {4, 0}, {4, 4}, {0, 4}, {0, 0}}}, l1, orb.Point{9, 9}},
+			orb.Polygon{{{0, 0}, {2, 0}, {4, 0}, {0, 0}}},                                           // flat: centroid of the outer ring as a line, (2,0)
+			orb.Polygon{{{0, 0}, {4, 0}, {4, 4}, {0, 4}, {0, 0}}, {{0, 0}, {0, 4}, {4, 4}, {4, 0}}}, // hole = outer ring: (2,2)
+			orb.Polygon{{{1, 1}, {1, 1}}}, orb.Polygon{{}}, orb.Ring{{3, 4}, {5, 6}},
+			orb.MultiLineString{{{1, 1}, {1, 1}}, {}, {{3, 5}}},             // no length: mean of first vertices (2,3)
+			orb.MultiLineString{{}, {{2, -1}, {2, 1}}, {{-2, -1}, {-2, 1}}}, // tie: index 1
 			nil, orb.Ring(nil), orb.Collection{}, orb.Collection{orb.Collection{}},
 		} {
 			c.Case("ca", gs(g))
@@ -409,6 +599,11 @@ func genC10(c *Ctx) {
 		mode := []int{0, 0, 1, 1, 2}[r.Intn(5)]
 		switch r.Intn(8) {
 		case 0: // ring variants: rotations, reversal, closing, integer translation
+			if r.Intn(4) == 0 { // general-position floats, float translation: judged within relative 1e-9
+				rg, t := c10FloatRing(r)
+				c.Case("ringvar", spts(rg)+" "+fb(t[0])+" "+fb(t[1]))
+				continue
+			}
 			m := r.Intn(2)
 			var rg orb.Ring
 			if r.Intn(4) == 0 {
@@ -428,6 +623,8 @@ func genC10(c *Ctx) {
 			var g orb.Geometry
 			if r.Intn(40) == 0 {
 				g = genGeom(r, GenOpts{Mode: CoordSmallInt, MaxPts: 4, MaxDepth: 2, TopNil: true}, 0)
+			} else if r.Intn(12) == 0 {
+				g = c10Degenerate(r, mode%2)
 			} else {
 				g = c10Geom(r, mode, 0)
 			}
@@ -445,6 +642,8 @@ func genC10(c *Ctx) {
 			var g orb.Geometry
 			if r.Intn(40) == 0 {
 				g = genGeom(r, GenOpts{Mode: CoordSmallInt, MaxPts: 4, MaxDepth: 2, TopNil: true}, 0)
+			} else if r.Intn(8) == 0 {
+				g = c10Tied(r, mode)
 			} else {
 				g = c10Geom(r, mode, 0)
 			}
